@@ -190,6 +190,62 @@ def limit_over_distinct_aggregate(q):
     return bool(hit)
 
 
+def aliasref_to_subquery_item(q):
+    """Some select list references (by alias) an earlier item whose expression contains a subquery."""
+    hit = []
+
+    def has_subq(e):
+        f = []
+
+        def fn(x):
+            if x.k == "subq":
+                f.append(1)
+        _walk_exprs(e, fn)
+        return bool(f)
+
+    def refs(e):
+        out = set()
+
+        def fn(x):
+            if x.k == "aliasref":
+                out.add(x.a[0])
+        _walk_exprs(e, fn)
+        return out
+
+    def vsel(b):
+        withsub = {al for e, al in b.items if al and has_subq(e)}
+        for e, al in b.items:
+            if refs(e) & withsub:
+                hit.append(1)
+
+    def vq(qq):
+        for _, cq, _m in qq.ctes:
+            vq(cq)
+        b = qq.body
+        if isinstance(b, Sel):
+            vsel(b)
+            vf(b.frm)
+        else:
+            vq(b[2])
+            vq(b[3])
+
+    def vf(f):
+        if f is None:
+            return
+        if f.k == "join":
+            vf(f.left)
+            vf(f.right)
+        elif f.k in ("sub", "lateral"):
+            vq(f.q)
+    vq(q)
+
+    def es(x):
+        if x.k == "subq":
+            vq(x.a[1])
+    _walk_query(q, es)
+    return bool(hit)
+
+
 def cte_joined_with_itself(q):
     """Some FROM clause (through joins and derived tables, not expression subqueries) scans one CTE twice."""
     hit = []
@@ -237,6 +293,8 @@ def query_avoid_reasons(q, partitions=2):
         reasons.add("optimizer-cte-self-join")
     if partitions > 1 and limit_over_outer_join(q):
         reasons.add("left-join-limit-hang")
+    if aliasref_to_subquery_item(q):
+        reasons.add("alias-ref-to-subquery-item-duplicates-rows")
     if partitions > 1 and limit_over_distinct_aggregate(q):
         reasons.add("distinct-aggregate-union-limit-hang")
 
